@@ -7,7 +7,7 @@ Spec  : ZxVerif/Spec/Snapshot.lean (`describeSzx`, `describeSna`, `describeScr`:
         written from the format documents; `abs` maps a model machine to the abstract state)
 `Fixes.all` = the code with the candidate repairs, `Fixes.none` = the code as it is in /repo.
 -/
-import ZxVerif.Lemmas.Szx
+import ZxVerif.Lemmas.C14
 namespace ZxVerif.C14
 open ZxVerif.Snap
 
@@ -256,36 +256,6 @@ theorem szx_load_is_describe (inflate : Bytes → Option Bytes) (f : Bytes) (r :
 
 /-! ### AY: audible state -/
 
-/-- the machine after the enable/disable step of the AY chunk -/
-def ayStep1 (mid : Nat) (d : Bytes) (m : Machine) : Machine :=
-  if mid < 2 then { m with ayEnabled := d.getD 0 0 &&& 2 != 0 } else m
-
-theorem ayStep1_chip (mid : Nat) (d : Bytes) (m : Machine) : (ayStep1 mid d m).ayChip = m.ayChip := by
-  unfold ayStep1; split <;> rfl
-
-/-- `szxAY` on a full-length chunk, spelled out -/
-theorem szxAY_eq (fx : Fixes) (mid : Nat) (d : Bytes) (m : Machine) (hl : d.length = 18) :
-    szxAY fx mid d m = some (if (ayStep1 mid d m).ayEnabled
-      then ((ayStep1 mid d m).aySelect (d.getD 1 0)).aySetRegs fx (d.drop 2) else ayStep1 mid d m) := by
-  unfold szxAY ayStep1
-  have h1 : ¬ d.length < 1 := by omega
-  have h2 : ¬ d.length < 18 := by omega
-  rw [if_neg h1]
-  simp only [h2, if_false]
-  generalize (if mid < 2 then ({ m with ayEnabled := d.getD 0 0 &&& 2 != 0 } : Machine) else m) = m1
-  cases h : m1.ayEnabled <;> simp
-
-theorem aySetRegs_all (m : Machine) (v : Byte) (regs : Bytes) :
-    ((m.aySelect v).aySetRegs Fixes.all regs).ayChip = chipProgram m.ayChip regs ∧
-    ((m.aySelect v).aySetRegs Fixes.all regs).ayRegs = regs.take 16 ∧
-    ((m.aySelect v).aySetRegs Fixes.all regs).aySel = (v &&& 0x0F).toNat := by
-  simp [Machine.aySetRegs, Machine.aySelect, Fixes.all]
-
-theorem aySetRegs_none (m : Machine) (v : Byte) (regs : Bytes) :
-    ((m.aySelect v).aySetRegs Fixes.none regs).ayChip = m.ayChip ∧
-    ((m.aySelect v).aySetRegs Fixes.none regs).ayRegs = regs.take 16 := by
-  simp [Machine.aySetRegs, Machine.aySelect, Fixes.none]
-
 /-- **C14, AY (repaired code).** After an AY chunk is applied to a machine with the AY present, the
 sound generator is in the state a program reaches by writing registers 0..13 through the ports —
 whatever the chip held before — and the register file and the selected register are the file's. -/
@@ -331,16 +301,50 @@ theorem ramp_compressed_eq_stored (inflate deflate : Bytes → Bytes) (inflate' 
   unfold Spec.applyRAMP
   simp [hlaw]
 
-/-- **SNA and SZX agree.** Let `m1` be what loading the SNA file written for `s` gives in `r`. Any SZX
-file that describes that same abstract state loads into a machine with exactly that abstract state
-(and a display that shows its RAM): the two machines are indistinguishable through `Spec.abs`. -/
-theorem sna_szx_agree (inflate : Bytes → Option Bytes) (s r m1 : Machine) (f2 : Bytes)
+/-- **C14, SNA (repaired code).** For every well-formed SNA file of the receiver's model (48K:
+49179 bytes, stack pointer in RAM; 128K: 131103 or 147487 bytes as the latch demands; IM ≤ 2) and
+every state of the receiving emulator, loading succeeds and the abstract state of the result is
+exactly what the file describes; the display cache agrees with RAM. -/
+theorem sna_load_is_describe (f : Bytes) (r : Machine) (a : Spec.AState)
+    (hm : Spec.snaModel f = some r.kind) (hd : Spec.describeSna f (Spec.abs r) = some a) :
+    ∃ m, snaLoad Fixes.all f r = .ok m ∧ Spec.abs m = a ∧
+      (∀ b, m.displayable b = true → m.scr b = m.ram b) := by
+  cases hk : r.kind with
+  | k48 =>
+    rw [hk] at hm
+    obtain ⟨m, e1, e2, e3, hkm⟩ := sna_describe_48 f r a hk hm hd
+    refine ⟨m, e1, e2, ?_⟩
+    intro b hb
+    unfold Machine.displayable at hb
+    rw [hkm] at hb
+    have : b = 0 := by simpa using hb
+    subst this; exact e3
+  | k128 =>
+    rw [hk] at hm
+    obtain ⟨m, e1, e2, e3, e4, hkm⟩ := sna_describe_128 f r a hk hm hd
+    refine ⟨m, e1, e2, ?_⟩
+    intro b hb
+    unfold Machine.displayable at hb
+    rw [hkm] at hb
+    simp only [Bool.or_eq_true, beq_iff_eq] at hb
+    rcases hb with h | h <;> subst h
+    · exact e3
+    · exact e4
+
+/-- **SNA and SZX agree (repaired code).** Whenever an SNA file and an SZX file describe the same
+abstract state on top of the same receiver, loading either one gives machines with exactly that
+abstract state: registers, interrupt state, paging, border, every RAM page, AY, mouse — the two
+loaded machines are indistinguishable through `Spec.abs`. -/
+theorem sna_szx_agree (inflate : Bytes → Option Bytes) (f1 f2 : Bytes) (r : Machine) (a : Spec.AState)
     (hchip : r.ayChip.length = 14) (h48 : r.kind = .k48 → r.pagingEnabled = false)
-    (_h1 : snaLoad Fixes.all (snaSave Fixes.all s) r = .ok m1) (hk : (Spec.abs m1).model = r.kind)
-    (hd : Spec.describeSzx .pcAtHalt inflate f2 (Spec.abs r) = some (Spec.abs m1)) :
-    ∃ m2, szxLoad Fixes.all inflate f2 r = .ok m2 ∧ Spec.abs m2 = Spec.abs m1 := by
-  obtain ⟨m2, e1, e2, _⟩ := szx_load_is_describe inflate f2 r (Spec.abs m1) hchip h48 hd hk
-  exact ⟨m2, e1, e2⟩
+    (hm : Spec.snaModel f1 = some r.kind) (hk : a.model = r.kind)
+    (hd1 : Spec.describeSna f1 (Spec.abs r) = some a)
+    (hd2 : Spec.describeSzx .pcAtHalt inflate f2 (Spec.abs r) = some a) :
+    ∃ m1 m2, snaLoad Fixes.all f1 r = .ok m1 ∧ szxLoad Fixes.all inflate f2 r = .ok m2 ∧
+      Spec.abs m1 = Spec.abs m2 := by
+  obtain ⟨m1, e1, e2, _⟩ := sna_load_is_describe f1 r a hm hd1
+  obtain ⟨m2, g1, g2, _⟩ := szx_load_is_describe inflate f2 r a hchip h48 hd2 hk
+  exact ⟨m1, m2, e1, g1, by rw [e2, g2]⟩
 
 /-! ### the defects of the code as it is, chunk by chunk -/
 
